@@ -1,0 +1,14 @@
+//go:build verif
+// +build verif
+
+package network
+
+// VerifLocalQueues returns the number of packets waiting in the two queues of an
+// in-memory connection (-1, -1 for any other connection type). C09 harness only.
+func VerifLocalQueues(c Conn) (incoming int, outgoing int) {
+	lc, ok := c.(*LocalConn)
+	if !ok {
+		return -1, -1
+	}
+	return len(lc.incomingQueue), len(lc.outgoingQueue)
+}
